@@ -44,7 +44,28 @@ func (e *typedErr) Error() string { return "transport: not open: " + e.cause.Err
 func (e *typedErr) TypeId() int32 { return 1 }
 func (e *typedErr) Unwrap() error { return e.cause }
 
-var termErrs = []error{io.EOF, io.ErrUnexpectedEOF, errX, fmt.Errorf("ctx: %w", errX), fmt.Errorf("conn reset while relaying: %w", thrift.NewProtocolException(thrift.INVALID_DATA, "upstream said so")), &typedErr{cause: errX}, fmt.Errorf("read tcp 10.0.0.1:8888: connection closed by peer: %w", io.EOF), srcTimeout{}}
+var termErrs = []error{io.EOF, io.ErrUnexpectedEOF, errX, fmt.Errorf("ctx: %w", errX), fmt.Errorf("conn reset while relaying: %w", thrift.NewProtocolException(thrift.INVALID_DATA, "upstream said so")), &typedErr{cause: errX}, fmt.Errorf("read tcp 10.0.0.1:8888: connection closed by peer: %w", io.EOF), srcTimeout{}, aggErr{errX, io.ErrClosedPipe}}
+
+// aggErr is an aggregate of errors whose dynamic type is NOT comparable (a slice): comparing two of them with == panics,
+// errors.Is does not (it asks the Is method).
+type aggErr []error
+
+func (a aggErr) Error() string {
+	return fmt.Sprintf("verif: %d errors on the source: %v; %v", len(a), a[0], a[1])
+}
+func (a aggErr) Unwrap() []error { return a }
+func (a aggErr) Is(t error) bool {
+	o, ok := t.(aggErr)
+	if !ok || len(o) != len(a) {
+		return false
+	}
+	for i := range a {
+		if a[i] != o[i] {
+			return false
+		}
+	}
+	return true
+}
 
 // srcTimeout is a deadline error of the source (net.Error style: Timeout() is true); it is the source's error like any other.
 type srcTimeout struct{}
@@ -53,7 +74,7 @@ func (srcTimeout) Error() string   { return "verif: i/o timeout on the source" }
 func (srcTimeout) Timeout() bool   { return true }
 func (srcTimeout) Temporary() bool { return true }
 
-var termErrNames = []string{"io.EOF", "io.ErrUnexpectedEOF", "errX", "wrapped(errX)", "wraps-a-protocol-exception", "typed-error-wrapping(errX)", "wrapped(io.EOF)", "timeout-error"}
+var termErrNames = []string{"io.EOF", "io.ErrUnexpectedEOF", "errX", "wrapped(errX)", "wraps-a-protocol-exception", "typed-error-wrapping(errX)", "wrapped(io.EOF)", "timeout-error", "aggregate-of-a-non-comparable-type"}
 
 // ---- EnvReader: harness-owned io.Reader (fault and fragmentation model, DESIGN 4.3) ----
 
